@@ -2,7 +2,7 @@
     the family number; the verdict says whether the implementation's observed
     behaviour equals the model's. *)
 From Coq Require Import List ZArith Bool.
-From FF Require Import Sx Dispatch.
+From FF Require Import Sx Dispatch TaskTree.
 Import ListNotations.
 Local Open Scope Z_scope.
 
@@ -15,5 +15,9 @@ Definition run_monitor (family : Z) (c : sx) : option bool :=
 Definition run_case (family : Z) (c : sx) : verdict :=
   match family with
   | 7 => check_dispatch c
+  | 16 => check_build c
+  | 17 => check_tree_static c
+  | 18 => check_next c
+  | 19 => check_cancel_mark c
   | _ => BadCase 0
   end.
